@@ -661,7 +661,8 @@ def _grammar(ctx, kinds):
     m = ctx.model
     E = m.prog.enums
     decs = dfa.find_decoders(m.prog)
-    if len(decs) < 5:
+    if len(decs) < 2:
+        # (one decoder may serve several variable types; what must exist is a decoder for every type - checked below)
         raise AnalysisBroken('anchor vanished: only %d argument decoders found (%s)' % (len(decs), decs))
     # which decoder serves which variable type: from the dispatch in the write-argument step
     ex, ts = _decode_transitions(ctx)
